@@ -175,6 +175,66 @@ Theorem C03_drain_errors_only_empty_container :
 Proof. exact drain_errors. Qed.
 Print Assumptions C03_drain_errors_only_empty_container.
 
+(* ---- the proxying case: the queue a Proxy holds for one of its clients ------------------------------
+   c2/proxy.go proxyClient.pick / next (pc_next) is a second, smaller copy of Session.pick / next
+   over the same nextPacket; the client's side is receive(s, nil, n) (recv_client).  Every packet in
+   such a queue is for the client's device (Proxy.accept routes by device).  pc_drain polls until
+   nothing is pending and then `extra` more times, as a client does on every sleep interval. *)
+Theorem C03_proxy_drain_delivers_queue :
+  forall c extra q,
+    wf_conf c -> Forall (fun p => queueable p = true) q ->
+    Forall (fun p => is_own (c_own c) p = true) q ->
+    map untag_d (deliveries (pc_drain c extra (mkS q None 0))) = flat_map (direct (c_own c)) q.
+Proof. exact pc_drain_delivers_queue. Qed.
+Print Assumptions C03_proxy_drain_delivers_queue.
+
+Theorem C03_proxy_drain_delivers_plain :
+  forall c extra q,
+    wf_conf c ->
+    Forall (fun p => queueable p = true /\ (is_nop p = true \/ plain p = true)) q ->
+    Forall (fun p => is_own (c_own c) p = true) q ->
+    map untag_d (deliveries (pc_drain c extra (mkS q None 0))) =
+    map (to_own (c_own c)) (filter (fun p => negb (is_nop p)) q).
+Proof. exact pc_drain_delivers_plain. Qed.
+Print Assumptions C03_proxy_drain_delivers_plain.
+
+(* once nothing is pending, every further poll yields keep-alives only, delivers nothing and leaves
+   nothing pending (no packet is handed out twice) *)
+Theorem C03_proxy_idle_polls_only_keepalives :
+  forall c n st s,
+    wf_conf c -> pending st = [] -> In s (pc_polls c n st) ->
+    st_dlv s = [] /\ (forall p, In p (tx_packets (st_tx s)) -> is_nop p = true) /\ pending (st_after s) = [].
+Proof. exact pc_idle_polls_only_keepalives. Qed.
+Print Assumptions C03_proxy_idle_polls_only_keepalives.
+
+(* the carried-over packet is peek, opens the next transmission, and the slot then holds nothing
+   but a packet carried over from the rest of the queue *)
+Theorem C03_proxy_carry_over_never_lost :
+  forall c st tx st' k,
+    wf_conf c -> Forall (fun p => packable p = true) (pending st) ->
+    pc_next c st = (Some tx, st') -> s_peek st' = Some k ->
+    In k (pending st) /\
+    exists tx' st'', pc_next c st' = (Some tx', st'') /\
+      (exists v, first_packet tx' = Some v /\ untag v = untag (norm (c_own c) k)) /\
+      (forall k', s_peek st'' = Some k' -> In k' (s_q st')).
+Proof. exact pc_carry_over. Qed.
+Print Assumptions C03_proxy_carry_over_never_lost.
+
+(* proxyClient.next is Session.next without proxy tags, key-material rule, abandoned group and
+   mergeTags: same packets consumed and left, same transmission up to the merged tags *)
+Theorem C03_proxy_next_is_session_next :
+  forall c st,
+    c_ptags c = None -> s_last st = 0 ->
+    (forall n0 q, pending st = n0 :: q -> q <> [] -> f_crypt (p_fl n0) && is_own (c_own c) n0 = false) ->
+    snd (session_next c st) = snd (pc_next c st) /\
+    match fst (pc_next c st), fst (session_next c st) with
+    | Some x, Some y => y = x \/ y = tx_set_tags x (merge_tags (tx_tags x) (first_tags c st))
+    | None, None => True
+    | _, _ => False
+    end.
+Proof. exact session_next_is_pc_next. Qed.
+Print Assumptions C03_proxy_next_is_session_next.
+
 (* ---- non-vacuity ---------------------------------------------------------------------------------
    F = 256 KiB, Packets = 32, own device 1, device 2 registered.  Queue: a large own packet, a
    keep-alive, a tagged packet for device 2, a small packet with an empty device ID, a large own
@@ -204,4 +264,21 @@ Proof.
   split; [repeat (constructor; [vm_compute; split; [reflexivity|auto]|]); constructor|].
   split; [repeat (constructor; [vm_compute; auto|]); constructor|].
   repeat split; vm_compute; reflexivity.
+Qed.
+
+(* the proxy's queue: two packets that cannot share a transmission, the carried-over one is the
+   last one queued; 2 polls drain it, 2 more polls yield keep-alives; each packet delivered once *)
+Example C03_proxy_nonvacuous :
+  let q := [ pk 80 500 1 0 [] 132096 21; pk 81 501 1 0 [] 132096 22 ] in
+  Forall (fun p => queueable p = true /\ (is_nop p = true \/ plain p = true)) q /\
+  Forall (fun p => is_own (c_own ex_conf) p = true) q /\
+  map (fun s => s_peek (st_after s)) (pc_drain ex_conf 2 (mkS q None 0)) =
+    [Some (pk 81 501 1 0 [] 132096 22); None; None; None] /\
+  map untag_d (deliveries (pc_drain ex_conf 2 (mkS q None 0))) =
+    [ dl 1 80 500 1 0 [] 132096 21; dl 1 81 501 1 0 [] 132096 22 ].
+Proof.
+  cbv zeta.
+  split; [repeat (constructor; [vm_compute; split; [reflexivity|auto]|]); constructor|].
+  split; [repeat (constructor; [vm_compute; reflexivity|]); constructor|].
+  split; vm_compute; reflexivity.
 Qed.
